@@ -16,9 +16,11 @@ package main
 import (
 	"encoding/json"
 	"fmt"
+	"os"
 	"reflect"
 	"sort"
 	"strings"
+	"unsafe"
 
 	"google.golang.org/protobuf/proto"
 
@@ -37,6 +39,7 @@ type elemView struct {
 	pairs   map[string]string       // GC node pairs found by walking the graph: unique key (owner + child) -> child id
 	idCount map[string]int          // child id -> number of graph pairs carrying it (ids of attribute tombstones are not unique per owner)
 	attrOf  map[string]string       // unique pair key -> "text" | "tree" for attribute tombstones
+	pairIn  map[string]string       // unique pair key -> createdAt key of the Text / Tree / Array element holding the pair
 }
 
 func ownerOf(p crdt.GCPair) string {
@@ -55,7 +58,7 @@ func ownerOf(p crdt.GCPair) string {
 // graphView walks an object graph (no bookkeeping involved).
 func graphView(root *crdt.Object) elemView {
 	v := elemView{removed: map[string]string{}, all: map[string]crdt.Element{}, pairs: map[string]string{},
-		idCount: map[string]int{}, attrOf: map[string]string{}}
+		idCount: map[string]int{}, attrOf: map[string]string{}, pairIn: map[string]string{}}
 	mark := func(e crdt.Element) {
 		o := e.CreatedAt().Key()
 		if _, ok := v.removed[o]; !ok {
@@ -78,6 +81,7 @@ func graphView(root *crdt.Object) elemView {
 		addPair := func(owner string, p crdt.GCPair, attr string) {
 			k := e.CreatedAt().Key() + "/" + owner + "/" + fmt.Sprintf("%T:%s", p.Child, p.Child.IDString())
 			v.pairs[k] = p.Child.IDString()
+			v.pairIn[k] = e.CreatedAt().Key()
 			v.idCount[p.Child.IDString()]++
 			if attr != "" {
 				v.attrOf[k] = attr
@@ -172,6 +176,26 @@ func (h *fuzzHist) observe(root *crdt.Object) {
 			h.sharedIDs[id] = true
 		}
 	}
+	root.Descendants(func(e crdt.Element, parent crdt.Container) bool {
+		h.parentOf[e.CreatedAt().Key()] = parent.CreatedAt().Key()
+		return false
+	})
+}
+
+// restoredAncestor: an element was seen (at some observed point) below a container that undo/redo
+// later restored as a copy under the container's old createdAt.
+func (h *fuzzHist) restoredAncestor(key string) string {
+	for i := 0; i < 64; i++ {
+		p, ok := h.parentOf[key]
+		if !ok {
+			return ""
+		}
+		if h.restoredVals[p] {
+			return p
+		}
+		key = p
+	}
+	return ""
 }
 
 // ---------- protobuf side ----------
@@ -384,8 +408,18 @@ const (
 	tagRestoredInner = "c15-tombstones-inside-restored-element-not-registered"
 	tagRestoredNode  = "c15-gc-pair-of-restored-node-stays-registered"
 	// the live root's registrations differ from crdt.NewRoot(live.Object()) - a rebuild from its own
-	// graph, no codec involved - in a shape none of the predicates above identifies
-	tagBookOther = "c03-live-gc-bookkeeping-differs-from-rebuild-of-own-graph"
+	// graph, no codec involved - in a shape none of the predicates identifies.  This used to be a listed
+	// residual class (C09-n7, 4367 per 100k histories); since the shapes behind it were identified
+	// (tagLostSet, tagDeparted, the extensions of tagPairToggle / tagStaleReg / tagRestoredInner) nothing
+	// is left of it in 200k histories, and such an item is now reported UNTAGGED (= a violation) with the
+	// structural facts of the item attached
+	tagBookOther = ""
+	// RHT.Set returns the key's tombstone also when the set loses against it; Tree.Style / Text.Style
+	// pass it to RegisterGCPair, whose toggle drops the registration of a tombstone that stays
+	tagLostSet = "c03-lost-style-set-unregisters-attribute-tombstone"
+	// collecting (or replacing) a Text/Tree element, or collecting a node, leaves the GC pairs of what
+	// was inside registered
+	tagDeparted = "c03-gc-pair-outlives-collected-or-replaced-owner"
 	// an object member that lost a last-writer-wins race against an occupant that was already
 	// removed is never tombstoned; once the occupant is purged it is the only member left and the
 	// decoder makes it the occupant
@@ -469,8 +503,22 @@ func (h *fuzzHist) analyseSnapshot(live *crdt.Root, obj *crdt.Object, pa, pb *ap
 			// a tombstone that came back inside a restored container: RegisterElement books the
 			// restored value and its descendants as live, their tombstones are never registered
 			rep.add(tagRestoredInner, "graph-tombstone-not-registered:"+describe(e))
+		case h.restoredVals[o] && live.FindByCreatedAt(G.all[o].CreatedAt()) == G.all[o]:
+			// the tombstone IS an instance that undo/redo restored under its old createdAt and that was
+			// removed again: gcElementPairMap is keyed by createdAt, the registration of the instance it
+			// replaced and its own share one slot
+			rep.add(tagRestoredInner, "restored-instance-removed-again-not-registered:"+describe(e))
 		default:
-			rep.add(tagBookOther, "graph-tombstone-not-registered:"+describe(e))
+			shape := "elementMap does not know it"
+			if r := live.FindByCreatedAt(e.CreatedAt()); r == e {
+				shape = "elementMap holds this instance"
+			} else if r != nil {
+				shape = "elementMap holds another instance: " + describe(r)
+			}
+			if o != k {
+				shape += "; tombstoned through " + describe(G.all[o])
+			}
+			rep.add(tagBookOther, "graph-tombstone-not-registered:"+describe(e)+" ["+shape+"]")
 		}
 	}
 	for k, o := range L.elems {
@@ -481,13 +529,32 @@ func (h *fuzzHist) analyseSnapshot(live *crdt.Root, obj *crdt.Object, pa, pb *ap
 		reg := L.direct[o]
 		cur, inGraph := G.all[o]
 		switch {
-		case inGraph && cur != reg && (cur.RemovedAt() == nil || h.restoredVals[o]):
+		case inGraph && cur != reg && (cur.RemovedAt() == nil || h.restoredVals[o] || inRestored[o] || h.restoredAncestor(o) != ""):
 			// the registered tombstone instance was replaced (undo/redo restored the element under the
-			// same createdAt); the registration - and with it everything the old instance contained -
-			// was never dropped
+			// same createdAt, or restored a container around it as a copy); the registration - and with
+			// it everything the old instance contained - was never dropped
 			rep.add(tagStaleReg, "registered-through-replaced-instance:"+describe(e)+" via "+describe(reg))
+		case !inGraph && G.all[k] == nil && (h.restoredVals[o] || h.restoredAncestor(o) != ""):
+			// the registered tombstone is no longer part of the graph at all: it sat inside a container
+			// instance that undo/redo replaced by a copy (or is itself the replaced instance), and the
+			// registration was never dropped
+			rep.add(tagStaleReg, "registered-tombstone-left-the-graph-with-a-replaced-instance:"+describe(e)+" via "+describe(reg))
 		default:
-			rep.add(tagBookOther, "registered-but-not-a-graph-tombstone:"+describe(e)+" via "+describe(reg))
+			// structural facts for whoever reads the line
+			shape := "registered instance is not in the graph"
+			if inGraph && cur == reg {
+				shape = "registered instance is in the graph"
+			} else if inGraph {
+				shape = "the graph holds another instance under the registered createdAt: " + describe(cur)
+			}
+			if g, ok := G.all[k]; !ok {
+				shape += "; the element is not in the graph"
+			} else if g == e {
+				shape += "; the element is in the graph (same instance)"
+			} else {
+				shape += "; the graph holds another instance of the element: " + describe(g)
+			}
+			rep.add(tagBookOther, "registered-but-not-a-graph-tombstone:"+describe(e)+" via "+describe(reg)+" ["+shape+"]")
 		}
 	}
 	// --- (2) elements, G vs D: what the codec / the decoder's replay changes
@@ -535,6 +602,8 @@ func (h *fuzzHist) analyseSnapshot(live *crdt.Root, obj *crdt.Object, pa, pb *ap
 		}
 	}
 	// --- (3) pair registrations, L vs a rebuild from the same graph
+	var regs map[string]crdt.GCPair
+	var owners graphOwners
 	pairItem := func(id, what string, book bool) {
 		tk := id
 		if i := strings.LastIndex(id, ":"); i > 0 {
@@ -549,8 +618,64 @@ func (h *fuzzHist) analyseSnapshot(live *crdt.Root, obj *crdt.Object, pa, pb *ap
 		case !isAttrID(id) && h.restoredNodes[tk]:
 			// the node was un-tombstoned / re-tombstoned by an identity-preserving restore edit
 			rep.add(tagRestoredNode, what+":"+id)
+		case book && strings.HasPrefix(what, "pair-registered-by-rebuild"):
+			// a tombstone in the graph that the live root does not have registered
+			lostSet, inCopy, replacedElsewhere := false, false, false
+			for k, pid := range G.pairs {
+				if pid != id {
+					continue
+				}
+				elem := G.pairIn[k]
+				if isAttrID(id) && h.olderSetSeen(elem, id) && os.Getenv("PBFUZZ_NOLOSTSET") == "" {
+					lostSet = true
+				}
+				if isAttrID(id) && h.newerStyleSeen(elem, id) {
+					replacedElsewhere = true
+				}
+				if inRestored[elem] {
+					inCopy = true
+				}
+			}
+			switch {
+			case lostSet:
+				// RHT.Set hands the surviving tombstone back although the set lost; Style "registers" it,
+				// which toggles the registration off
+				rep.add(tagLostSet, what+":"+id)
+			case replacedElsewhere:
+				// shared id: a later style operation replaced this tombstone on some owners; unregistering
+				// the replaced copies took the one registration of the id away from the copies that stay
+				rep.add(tagPairToggle, "unregistered-with-a-replaced-copy-of-the-same-id:"+id)
+			case inCopy:
+				// node / attribute tombstones inside a Text or Tree that undo/redo restored as a copy: the
+				// copy is registered as a live element, what is dead inside it is not registered
+				rep.add(tagRestoredInner, what+":"+id)
+			default:
+				rep.add(tagBookOther, what+":"+id)
+			}
 		case book:
-			rep.add(tagBookOther, what+":"+id)
+			// a registration of the live root for which the graph has no tombstone
+			if regs == nil {
+				regs, owners = registeredPairs(live), ownersOf(live.Object())
+			}
+			p, ok := regs[id]
+			if !ok {
+				rep.add(tagBookOther, what+":"+id)
+				break
+			}
+			sh := pairShape(owners, p)
+			switch {
+			case sh.childRemoved && (!sh.ownerInGraph || (!sh.isAttr && !sh.childInGraph)):
+				// the owner (a collected or replaced Text/Tree, a collected node) or the child itself (dropped
+				// together with a collected ancestor) is gone from the graph, the pair stayed registered
+				rep.add(tagDeparted, what+":"+id+" ["+sh.desc+"]")
+			case sh.childRemoved && sh.isAttr && sh.ownerInGraph && !sh.childInGraph:
+				// the registered child is an attribute tombstone that its owner has since replaced: the
+				// "unregister" call for the replaced tombstone found no entry (dropped before, shared id) and
+				// RegisterGCPair's toggle registered it instead
+				rep.add(tagPairToggle, "replaced-attribute-tombstone-registered-by-toggle:"+id+" ["+sh.desc+"]")
+			default:
+				rep.add(tagBookOther, what+":"+id+" ["+sh.desc+"]")
+			}
 		default:
 			rep.add("", what+":"+id)
 		}
@@ -847,17 +972,21 @@ func (h *fuzzHist) noteOps(changes []*change.Change) {
 				if o.CreatedAt() != nil {
 					h.replaced[o.CreatedAt().Key()] = true
 				}
-				if o.Value() != nil && o.Value().CreatedAt() != nil && o.Value().CreatedAt().Key() != o.ExecutedAt().Key() {
+				if isRestoredValue(o.Value(), o.ExecutedAt()) {
 					h.restoredVals[o.Value().CreatedAt().Key()] = true
 				}
 			case *operations.Set:
-				if o.Value() != nil && o.Value().CreatedAt() != nil && o.Value().CreatedAt().Key() != o.ExecutedAt().Key() {
+				if isRestoredValue(o.Value(), o.ExecutedAt()) {
 					h.restoredVals[o.Value().CreatedAt().Key()] = true
 				}
 			case *operations.Add:
-				if o.Value() != nil && o.Value().CreatedAt() != nil && o.Value().CreatedAt().Key() != o.ExecutedAt().Key() {
+				if isRestoredValue(o.Value(), o.ExecutedAt()) {
 					h.restoredVals[o.Value().CreatedAt().Key()] = true
 				}
+			case *operations.Style:
+				h.noteStyle(o.ParentCreatedAt(), o.ExecutedAt(), o.Attributes(), o.AttributesToRemove())
+			case *operations.TreeStyle:
+				h.noteStyle(o.ParentCreatedAt(), o.ExecutedAt(), o.Attributes(), o.AttributesToRemove())
 			case *operations.Edit:
 				for _, sp := range append(append([]*crdt.RestoreSpan{}, o.RestoreSpans()...), o.RetombstoneSpans()...) {
 					if sp != nil && sp.CreatedAt != nil {
@@ -875,6 +1004,113 @@ func (h *fuzzHist) noteOps(changes []*change.Change) {
 	}
 }
 
+// isRestoredValue: the value an operation inserts is not new.  Either it keeps a createdAt older than
+// the operation (undo/redo re-set an object member under its old identity), or it is a container
+// with a fresh createdAt whose descendants are older than the operation (since /repo 868855dc
+// undo/redo re-inserts an array element as a copy under a fresh createdAt; what is inside the copy
+// keeps its createdAt - and its tombstones).
+func isRestoredValue(v crdt.Element, at *time.Ticket) bool {
+	if v == nil || v.CreatedAt() == nil || at == nil {
+		return false
+	}
+	if v.CreatedAt().Key() != at.Key() {
+		return true
+	}
+	old := false
+	if ct, ok := v.(crdt.Container); ok {
+		ct.Descendants(func(d crdt.Element, _ crdt.Container) bool {
+			c := d.CreatedAt()
+			if c != nil && (c.Lamport() != at.Lamport() || c.ActorID() != at.ActorID()) {
+				old = true
+			}
+			return old
+		})
+	}
+	return old
+}
+
+func (h *fuzzHist) noteStyle(parent, at *time.Ticket, set map[string]string, remove []string) {
+	if parent == nil || at == nil {
+		return
+	}
+	for k := range set {
+		key := parent.Key() + "/" + k
+		dup := false
+		for _, t := range h.styleSets[key] {
+			if t.Key() == at.Key() {
+				dup = true
+			}
+		}
+		if !dup {
+			h.styleSets[key] = append(h.styleSets[key], at)
+		}
+	}
+	if len(remove) > 0 {
+		h.styleRemoves[at.Key()] = at
+	}
+	for _, k := range remove {
+		key := parent.Key() + "/" + k
+		dup := false
+		for _, t := range h.styleRems[key] {
+			if t.Key() == at.Key() {
+				dup = true
+			}
+		}
+		if !dup {
+			h.styleRems[key] = append(h.styleRems[key], at)
+		}
+	}
+}
+
+// newerStyleSeen: an attribute tombstone <T>:<k> inside container `elem`, and a style operation on the
+// same container that sets or removes k with a ticket AFTER T has been seen.  Such an operation
+// replaces the tombstone on the nodes of its range; the pieces a split made of one node carry copies
+// of its attributes under the same ids, gcNodePairMap has ONE entry for all of them, and unregistering
+// the replaced copy (toggle) takes the registration away from the copies that stay - all inside one
+// operation (split + set), so no observer can see the id on two owners.
+func (h *fuzzHist) newerStyleSeen(elem, id string) bool {
+	i := strings.LastIndex(id, ":")
+	if i < 0 {
+		return false
+	}
+	t, ok := h.styleRemoves[id[:i]]
+	if !ok {
+		return false
+	}
+	for _, s := range h.styleSets[elem+"/"+id[i+1:]] {
+		if s.After(t) {
+			return true
+		}
+	}
+	for _, s := range h.styleRems[elem+"/"+id[i+1:]] {
+		if s.After(t) {
+			return true
+		}
+	}
+	return false
+}
+
+// olderSetSeen: an attribute tombstone <T>:<k> inside container `elem`, and a style operation on the
+// same container that SETS k with a ticket older than T has been seen.  (RHT.Set hands the surviving
+// tombstone back to its caller although the set lost; the caller "registers" it, which toggles the
+// registration off.)
+func (h *fuzzHist) olderSetSeen(elem, id string) bool {
+	i := strings.LastIndex(id, ":")
+	if i < 0 {
+		return false
+	}
+	t, ok := h.styleRemoves[id[:i]]
+	if !ok {
+		return false
+	}
+	for _, s := range h.styleSets[elem+"/"+id[i+1:]] {
+		if !s.After(t) {
+			return true
+		}
+	}
+	return false
+}
+
 func (h *fuzzHist) notePending() {
 	for _, cl := range h.clients {
 		h.noteOps(cl.doc.CreateChangePack().Changes)
@@ -885,17 +1121,41 @@ func (h *fuzzHist) notePending() {
 // belongs to a different, live instance in the graph (an undo/redo restored the element under its
 // old createdAt and the registration was not dropped).  GarbageCollect purges by createdAt.
 func staleRegistrations(r *crdt.Root) []string {
+	out, _ := staleRegistrationKeys(r)
+	return out
+}
+
+// staleRegistrationKeys also returns the names of the object members that hold the live
+// instances (the keys a purge by createdAt would take away).
+func staleRegistrationKeys(r *crdt.Root) ([]string, map[string]bool) {
 	G := graphView(r.Object())
 	var out []string
+	stale := map[string]bool{}
 	for _, p := range r.GCElementPairMap() {
 		p := p
 		e := p.Elem()
 		if cur, ok := G.all[e.CreatedAt().Key()]; ok && cur != e && cur.RemovedAt() == nil {
 			out = append(out, describe(e)+" now "+describe(cur))
+			stale[e.CreatedAt().Key()] = true
 		}
 	}
 	sort.Strings(out)
-	return out
+	keys := map[string]bool{}
+	visit := func(o *crdt.Object) {
+		for k, e := range o.Members() {
+			if stale[e.CreatedAt().Key()] {
+				keys[k] = true
+			}
+		}
+	}
+	visit(r.Object())
+	r.Object().Descendants(func(e crdt.Element, _ crdt.Container) bool {
+		if o, ok := e.(*crdt.Object); ok {
+			visit(o)
+		}
+		return false
+	})
+	return out, keys
 }
 
 // mergeTextNodesJSON: see mergeTextNodes.
@@ -956,4 +1216,221 @@ func mergeTextNodesJSON(s string) (string, bool) {
 		return "", false
 	}
 	return string(b), true
+}
+
+// duplicateCreatedAt lists createdAt keys carried by two or more distinct element instances that
+// are reachable in a graph (undo/redo re-inserting a copy next to the tombstone it replaces).
+func duplicateCreatedAt(root *crdt.Object) map[string][]string {
+	seen := map[string][]crdt.Element{}
+	add := func(e crdt.Element) {
+		k := e.CreatedAt().Key()
+		for _, x := range seen[k] {
+			if x == e {
+				return
+			}
+		}
+		seen[k] = append(seen[k], e)
+	}
+	add(root)
+	root.Descendants(func(e crdt.Element, _ crdt.Container) bool {
+		add(e)
+		return false
+	})
+	out := map[string][]string{}
+	for k, l := range seen {
+		if len(l) >= 2 {
+			for _, e := range l {
+				out[k] = append(out[k], describe(e))
+			}
+		}
+	}
+	return out
+}
+
+// unregisteredInGraph lists elements reachable in a root's object graph that its registry
+// (Root.FindByCreatedAt) does not know: every operation addressing them fails on this replica.
+func unregisteredInGraph(r *crdt.Root) []string {
+	var out []string
+	r.Object().Descendants(func(e crdt.Element, _ crdt.Container) bool {
+		if r.FindByCreatedAt(e.CreatedAt()) == nil {
+			out = append(out, describe(e))
+		}
+		return false
+	})
+	sort.Strings(out)
+	return out
+}
+
+// locateNode describes where a text / tree node id occurs in a graph (debug aid).
+func locateNode(root *crdt.Object, id string) []string {
+	var out []string
+	rm := func(t *time.Ticket) string {
+		if t == nil {
+			return "live"
+		}
+		return "removedAt=" + t.ToTestString()
+	}
+	visit := func(e crdt.Element) {
+		switch x := e.(type) {
+		case *crdt.Text:
+			for _, n := range x.Nodes() {
+				if n.IDString() == id {
+					out = append(out, fmt.Sprintf("text %s (%s): node %s %s len=%d", x.CreatedAt().ToTestString(), rm(x.RemovedAt()), n.ID().ToTestString(), rm(n.RemovedAt()), n.Len()))
+				}
+			}
+		case *crdt.Tree:
+			for _, n := range x.Nodes() {
+				if n.IDString() == id {
+					out = append(out, fmt.Sprintf("tree %s (%s): node %s type=%s %s", x.CreatedAt().ToTestString(), rm(x.RemovedAt()), n.IDString(), n.Type(), rm(n.RemovedAt())))
+				}
+			}
+		}
+	}
+	visit(root)
+	root.Descendants(func(e crdt.Element, _ crdt.Container) bool {
+		visit(e)
+		return false
+	})
+	if len(out) == 0 {
+		out = append(out, "node "+id+" is nowhere in the graph")
+	}
+	return out
+}
+
+// registeredPairs reads the live root's gcNodePairMap with its values (unexported: through
+// reflection on the field's address).  nil when the field is not what this harness expects.
+func registeredPairs(r *crdt.Root) (out map[string]crdt.GCPair) {
+	defer func() {
+		if recover() != nil {
+			out = nil
+		}
+	}()
+	f := reflect.ValueOf(r).Elem().FieldByName("gcNodePairMap")
+	if !f.IsValid() || f.Kind() != reflect.Map || !f.CanAddr() {
+		return nil
+	}
+	m, ok := reflect.NewAt(f.Type(), unsafe.Pointer(f.UnsafeAddr())).Elem().Interface().(map[string]crdt.GCPair)
+	if !ok {
+		return nil
+	}
+	return m
+}
+
+// graphOwners: every possible owner of a GC pair that a walk of the graph reaches.
+type graphOwners struct {
+	treeNodes map[*crdt.TreeNode]*crdt.Tree
+	textNodes map[*crdt.RGATreeSplitNode[*crdt.TextValue]]*crdt.Text
+	textVals  map[*crdt.TextValue]*crdt.RGATreeSplitNode[*crdt.TextValue]
+	splits    map[*crdt.RGATreeSplit[*crdt.TextValue]]*crdt.Text
+	attrs     map[*crdt.RHTNode]bool // attribute nodes currently held by an owner in the graph
+}
+
+func ownersOf(root *crdt.Object) graphOwners {
+	g := graphOwners{treeNodes: map[*crdt.TreeNode]*crdt.Tree{}, textNodes: map[*crdt.RGATreeSplitNode[*crdt.TextValue]]*crdt.Text{},
+		textVals: map[*crdt.TextValue]*crdt.RGATreeSplitNode[*crdt.TextValue]{}, splits: map[*crdt.RGATreeSplit[*crdt.TextValue]]*crdt.Text{},
+		attrs: map[*crdt.RHTNode]bool{}}
+	visit := func(e crdt.Element) {
+		switch x := e.(type) {
+		case *crdt.Text:
+			g.splits[x.RGATreeSplit()] = x
+			for _, n := range x.Nodes() {
+				g.textNodes[n] = x
+				if n.Value() != nil {
+					g.textVals[n.Value()] = n
+					for _, p := range n.Value().GCPairs() {
+						if a, ok := p.Child.(*crdt.RHTNode); ok {
+							g.attrs[a] = true
+						}
+					}
+				}
+			}
+		case *crdt.Tree:
+			for _, n := range x.Nodes() {
+				g.treeNodes[n] = x
+				if n.Attrs != nil {
+					for _, a := range n.Attrs.Nodes() {
+						g.attrs[a] = true
+					}
+				}
+			}
+		}
+	}
+	visit(root)
+	root.Descendants(func(e crdt.Element, _ crdt.Container) bool {
+		visit(e)
+		return false
+	})
+	return g
+}
+
+// pairShape states, from the structure alone, how a registered pair relates to the graph.
+type pairShapeT struct {
+	ownerInGraph bool
+	childInGraph bool // text / tree node reachable; attribute node held by an owner that is reachable
+	childRemoved bool
+	isAttr       bool
+	desc         string
+}
+
+func pairShape(g graphOwners, p crdt.GCPair) pairShapeT {
+	var sh pairShapeT
+	rm := func(t *time.Ticket) string {
+		if t == nil {
+			return "live"
+		}
+		return "removedAt=" + t.ToTestString()
+	}
+	owner := "owner-unknown"
+	in := func(ok bool, what, extra string) string {
+		sh.ownerInGraph = ok
+		if ok {
+			return "owner-" + what + "-in-graph" + extra
+		}
+		return "owner-" + what + "-not-in-graph" + extra
+	}
+	switch o := p.Parent.(type) {
+	case *crdt.Tree:
+		found := false
+		for _, t := range g.treeNodes {
+			if t == o {
+				found = true
+				break
+			}
+		}
+		owner = in(found, "tree", "")
+	case *crdt.TreeNode:
+		_, ok := g.treeNodes[o]
+		owner = in(ok, "treenode", "("+rm(o.RemovedAt())+")")
+	case *crdt.RGATreeSplit[*crdt.TextValue]:
+		_, ok := g.splits[o]
+		owner = in(ok, "text", "")
+	case *crdt.TextValue:
+		_, ok := g.textVals[o]
+		owner = in(ok, "textnode", "")
+	default:
+		owner = fmt.Sprintf("owner-%T", p.Parent)
+	}
+	child := ""
+	sh.childRemoved = p.Child.RemovedAt() != nil
+	switch ch := p.Child.(type) {
+	case *crdt.TreeNode:
+		_, sh.childInGraph = g.treeNodes[ch]
+		child = "treenode"
+	case *crdt.RGATreeSplitNode[*crdt.TextValue]:
+		_, sh.childInGraph = g.textNodes[ch]
+		child = "textnode"
+	case *crdt.RHTNode:
+		sh.isAttr = true
+		sh.childInGraph = g.attrs[ch]
+		child = "attribute"
+	default:
+		child = fmt.Sprintf("%T", p.Child)
+	}
+	if sh.childInGraph {
+		child += "-in-graph"
+	} else {
+		child += "-not-in-graph"
+	}
+	sh.desc = owner + " " + child + "(" + rm(p.Child.RemovedAt()) + ")"
+	return sh
 }
